@@ -585,3 +585,15 @@ def defining_module(program, modname: str, symbol: str):
             return m
         m, symbol = nxt, sym
     return m
+
+
+def bytes_prefix_of(fn):
+    """the literal bytes that precede the first hole of a bytes template / concatenation built in fn (b"\\x00" + x, b"\\x00%s" % x), else None"""
+    for b in ast.walk(fn):
+        if isinstance(b, ast.BinOp) and isinstance(b.left, ast.Constant) and isinstance(b.left.value, bytes):
+            if isinstance(b.op, ast.Mod):
+                i = b.left.value.find(b"%s")
+                return b.left.value[:i].replace(b"%%", b"%") if i >= 0 else b.left.value
+            if isinstance(b.op, ast.Add):
+                return b.left.value
+    return None
